@@ -3,6 +3,7 @@ package props
 import (
 	"encoding/json"
 	"fmt"
+	"github.com/streamingfast/bstream"
 	"math/rand"
 	"os"
 	"path/filepath"
@@ -61,6 +62,7 @@ type scen struct {
 	dir  string
 	cl   *sim.Cluster
 	refs map[string]*sim.Ref
+	fsb  uint64 // first streamable block of the chain (0 unless the driver asked for FSBProb)
 }
 
 func newScen(c *fw.Case, opts gen.PkgOpts) *scen {
@@ -68,6 +70,13 @@ func newScen(c *fw.Case, opts gen.PkgOpts) *scen {
 	s := &scen{c: c, r: r, refs: map[string]*sim.Ref{}}
 	s.seg = uint64(2 + r.Intn(11))
 	opts.SegSize = s.seg
+	if opts.FSBProb > 0 && os.Getenv("VH_MODE") != "race" && r.Float64() < opts.FSBProb {
+		// a chain whose first streamable block is not 0 (process-wide setting of bstream: plain binaries only, reset by close)
+		opts.FirstStreamable = pick(r, []uint64{1, 1, 2, s.seg - 1, s.seg, s.seg + 3})
+		s.fsb = opts.FirstStreamable
+		bstream.GetProtocolFirstStreamableBlock = s.fsb
+		c.Count("scenarios_with_nonzero_first_streamable_block", 1)
+	}
 	s.pkg = gen.GenPkg(r, opts)
 	s.H = 3*s.seg + uint64(r.Intn(int(s.seg)+1)) + 2
 	if s.H > 44 {
@@ -79,10 +88,18 @@ func newScen(c *fw.Case, opts gen.PkgOpts) *scen {
 	}
 	s.dir = dir
 	s.cl = sim.NewCluster(dir, s.seg, s.H+2*s.seg+2)
+	s.cl.FirstStreamable = s.fsb
 	return s
 }
 
-func (s *scen) close() { os.RemoveAll(s.dir) }
+func (s *scen) close() {
+	os.RemoveAll(s.dir)
+	if s.fsb != 0 {
+		bstream.GetProtocolFirstStreamableBlock = 0
+	}
+}
+
+func pick[T any](r *rand.Rand, xs []T) T { return xs[r.Intn(len(xs))] }
 
 // ref returns (memoised) REF-LINEAR for an output module.
 func (s *scen) ref(out string) *sim.Ref {
@@ -135,6 +152,9 @@ func (s *scen) indexOutputs() []string {
 
 func (s *scen) witness(extra map[string]any) map[string]any {
 	w := map[string]any{"segment_size": s.seg, "modules": s.pkg.Describe(), "head": s.cl.Head}
+	if s.fsb != 0 {
+		w["first_streamable_block"] = s.fsb
+	}
 	for k, v := range extra {
 		w[k] = v
 	}
@@ -231,7 +251,7 @@ func runStrategyScenario(c *fw.Case, prop string) {
 		runCompiledScenario(c, prop)
 		return
 	}
-	s := newScen(c, gen.PkgOpts{})
+	s := newScen(c, gen.PkgOpts{FSBProb: 0.2})
 	defer s.close()
 	outs := s.outputs()
 	if c.Violated() {
